@@ -121,3 +121,18 @@ impl<T: Clone + PartialEq> Probe<T> {
         }
     }
 }
+
+#[cfg(feature = "verif-hooks")]
+impl<T: Clone> Probe<T> {
+    #[allow(clippy::type_complexity)]
+    pub(crate) fn verif_state(&self) -> (Option<Member<T>>, Vec<T>, ProbeNumber, bool, usize, bool) {
+        (
+            self.direct.clone(),
+            self.indirect.clone(),
+            self.probe_number,
+            self.direct_ack_ok,
+            self.indirect_ack_count,
+            self.reached_indirect_probe_stage,
+        )
+    }
+}
